@@ -103,17 +103,17 @@ func (p *Prog) ingestParams() map[*ssa.Function]map[int]string {
 		}
 		for _, site := range callsIn(fn) {
 			sc := site.Common().StaticCallee()
-			if sc == nil || sc.Pkg == nil || sc.Pkg.Pkg.Path() != "reflect" || (sc.Name() != "UnsafePointer" && sc.Name() != "Pointer" && sc.Name() != "UnsafeAddr") {
+			if sc == nil || sc.Pkg == nil || sc.Pkg.Pkg.Path() != "reflect" || (cname(sc) != "UnsafePointer" && cname(sc) != "Pointer" && cname(sc) != "UnsafeAddr") {
 				continue
 			}
 			// receiver: reflect.ValueOf(x) result
 			recv := site.Common().Args[0]
 			vo := callOf(originValue(recv))
-			if vo == nil || vo.Common().StaticCallee() == nil || vo.Common().StaticCallee().Name() != "ValueOf" {
+			if vo == nil || vo.Common().StaticCallee() == nil || cname(vo.Common().StaticCallee()) != "ValueOf" {
 				continue
 			}
 			if pr := rootParam(vo.Common().Args[0]); pr != nil && pr.Parent() == fn {
-				add(fn, paramIndex(pr), "reflect.ValueOf("+pr.Name()+")."+sc.Name()+"() in "+p.FuncName(fn))
+				add(fn, paramIndex(pr), "reflect.ValueOf("+pr.Name()+")."+cname(sc)+"() in "+p.FuncName(fn))
 			}
 		}
 	}
@@ -313,8 +313,8 @@ func classifyPointer(v ssa.Value) (string, string) {
 				continue
 			}
 			if sc := x.Common().StaticCallee(); sc != nil {
-				if sc.Name() == "Get" || sc.Name() == "UnsafePointer" {
-					return "column", "result of " + sc.Name()
+				if cname(sc) == "Get" || cname(sc) == "UnsafePointer" {
+					return "column", "result of " + cname(sc)
 				}
 			}
 			return "column", "result of a call"
@@ -382,6 +382,11 @@ func c14r2(p *Prog, r *Reporter) {
 			// the loop into a helper does not turn a known finding into a new one
 			name := p.FuncName(soleCallerRoot(p, fn))
 			construct := fmt.Sprintf("raw copy #%d: %s → %s", n, sd, dd)
+			// the same copy moved into a shared helper: if exactly one caller would make this a listed known finding,
+			// it is that finding (the defect is the copy, wherever it was moved to)
+			if name2 := knownCaller(p, r.rule.ID, soleCallerRoot(p, fn), construct); name2 != "" {
+				name = name2
+			}
 			if sk == "entity" && dk == "entity" {
 				r.OK(name, construct, p.Pos(site.Pos()), "both operands are entity storage, whose element type has no pointers (checked from go/types)")
 				continue
@@ -441,7 +446,7 @@ func c14r4(p *Prog, r *Reporter) {
 			return nil
 		}
 		sc := c.Common().StaticCallee()
-		if sc == nil || sc.Pkg == nil || sc.Pkg.Pkg.Path() != "reflect" || sc.Name() != name {
+		if sc == nil || sc.Pkg == nil || sc.Pkg.Pkg.Path() != "reflect" || cname(sc) != name {
 			return nil
 		}
 		return c
@@ -533,6 +538,9 @@ func tail(s string) string {
 
 // soleCallerRoot climbs from an unexported function to its caller while there is exactly one static call site (three levels at most).
 func soleCallerRoot(p *Prog, fn *ssa.Function) *ssa.Function {
+	for fn.Parent() != nil { // a closure belongs to the function it is written in
+		fn = fn.Parent()
+	}
 	for d := 0; d < 3; d++ {
 		if fn.Object() == nil || fn.Object().Exported() {
 			return fn
@@ -553,4 +561,42 @@ func soleCallerRoot(p *Prog, fn *ssa.Function) *ssa.Function {
 		fn = caller
 	}
 	return fn
+}
+
+// knownCaller: among the callers of an unexported helper, the single one F for which rule|F|construct is a listed
+// known finding ("" if none or several, or if the helper's own key is listed).
+func knownCaller(p *Prog, rule string, fn *ssa.Function, construct string) string {
+	keys := map[string]bool{}
+	for _, k := range loadKnown() {
+		if k.Status == "known" {
+			keys[k.Key] = true
+		}
+	}
+	if len(keys) == 0 || keys[rule+"|"+p.FuncName(fn)+"|"+construct] {
+		return ""
+	}
+	if fn.Object() == nil || fn.Object().Exported() {
+		return ""
+	}
+	cand := map[string]bool{}
+	for _, g := range p.Funcs {
+		for _, site := range callsIn(g) {
+			if !isCallTo(site, fn) {
+				continue
+			}
+			root := g
+			for root.Parent() != nil {
+				root = root.Parent()
+			}
+			if n := p.FuncName(root); keys[rule+"|"+n+"|"+construct] {
+				cand[n] = true
+			}
+		}
+	}
+	if len(cand) == 1 {
+		for n := range cand {
+			return n
+		}
+	}
+	return ""
 }
